@@ -320,6 +320,8 @@ Error BaseAssembler::embed_label(const Label& label, size_t data_size) {
 
     Fixup* fixup = _code->new_fixup(le, _section->section_id(), offset(), 0, of);
     if (ASMJIT_UNLIKELY(!fixup)) {
+      // Nothing has been embedded, the relocation must not be processed.
+      re->_reloc_type = RelocType::kNone;
       return report_error(make_error(Error::kOutOfMemory));
     }
 
@@ -389,6 +391,8 @@ Error BaseAssembler::embed_label_delta(const Label& label, const Label& base, si
 
     Expression* exp = _code->_arena.new_oneshot<Expression>();
     if (ASMJIT_UNLIKELY(!exp)) {
+      // Nothing has been embedded, the relocation (which has no source section yet) must not be processed.
+      re->_reloc_type = RelocType::kNone;
       return report_error(make_error(Error::kOutOfMemory));
     }
 
